@@ -437,8 +437,14 @@ def _parse_single_ix_experiment_3_0(struct: ir.Struct) -> SqwIXExperiment:
         efix = sc.scalar(e.value, unit="meV")
 
     raw_en = _get_struct_field(struct, "en").data
+    en_dims = ["energy_transfer"]
     if isinstance(raw_en, np.ndarray):
-        en = raw_en.squeeze()
+        if raw_en.ndim == 2 and raw_en.shape[0] > 1:
+            # One row of energy transfers per detector (indirect geometry).
+            en = raw_en
+            en_dims = ["detector", "energy_transfer"]
+        else:
+            en = raw_en.squeeze()
     else:
         en = [e.value for e in raw_en]
 
@@ -450,7 +456,7 @@ def _parse_single_ix_experiment_3_0(struct: ir.Struct) -> SqwIXExperiment:
         run_id=int(g("run_id")) - 1,
         efix=efix,
         emode=EnergyMode(g("emode")),
-        en=sc.array(dims=["energy_transfer"], values=en, unit="meV"),
+        en=sc.array(dims=en_dims, values=en, unit="meV"),
         psi=sc.scalar(g("psi"), unit=angle_unit),
         u=sc.vector(_get_struct_field(struct, "u").data),
         v=sc.vector(_get_struct_field(struct, "v").data),
